@@ -34,6 +34,7 @@ type scenario struct {
 	Faults      []int
 	Tags        map[string]bool // features present, for the coverage statistics
 	NoReplay    bool            // Go map iteration order can show: judged by the set-level checkers only
+	PreHeaders  bool            // the response's header map already holds values of the application's when the library is called
 	Pre         *scenario       // an earlier request served by the SAME actor value (its own configuration; not recorded)
 	ClockDelta  int64           // of a Pre request: its clock reading relative to the recorded request's
 }
@@ -175,7 +176,11 @@ func runScenario(sc *scenario) (res runResult) {
 		r.trace = nil
 		r.nFall = 0
 	}
+	if sc.PreHeaders {
+		rw.prePopulate()
+	}
 	handled, err, sent := exec(sc, rw)
+	rw.finish()
 	if sent != nil {
 		res.Sent = sent
 	}
